@@ -59,7 +59,7 @@ def run(ctx):
     rng = random.Random(ctx.seed)
     # 1. the definition itself: sanity properties over every content length / request / near-miss answer
     mc = ctx.instance("MC_HttpRange", "HttpRange", "HttpRange_mc.cfg",
-                      {"MaxLen": 4 if ctx.thorough else 2, "Grid": [5, 4, 2] if ctx.thorough else [3, 2, -1],
+                      {"MaxLen": 4 if ctx.thorough else 2, "Grid": [5, 4, 2] if ctx.thorough else [3, 1, -1],
                        "GenAcc": {"none", "gzip", "q0", "star"}, "MaxOps": 1})
     ctx.model_check(mc, workers=4)
     # 2. TLC enumerates the requests: every single range over 0..MaxLen+2 (+ malformed classes),
